@@ -256,6 +256,12 @@ func reuseDenseCheck(reuse DenseTensor, as DenseTensor) (err error) {
 
 // reuseCheckShape  checks the shape and reshapes it to be correct if the size fits but the shape doesn't.
 func reuseCheckShape(reuse DenseTensor, s Shape) (err error) {
+	// reshape installs the new shape first and checks afterwards: refuse a reuse tensor of the wrong
+	// size here, before it is touched (the same test as sanity())
+	if reuse.parentTensor() == nil && !s.IsScalar() && reuse.len() != s.TotalSize() {
+		return errors.Errorf(reuseReshapeErr, s, reuse.DataSize())
+	}
+
 	throw := BorrowInts(len(s))
 	copy(throw, s)
 
